@@ -21,6 +21,12 @@ claimed = {
  'C15': dict(level='proof', design='4.15',
    text="The context registry is verified as a data structure for all call orders: For errors iff shut down or below the watermark, otherwise returns the existing context or a fresh child of the parent and changes nothing else; CancelOlderThan (map range with delete) cancels and removes exactly the strictly older positions, keeps all others, raises the watermark monotonically; the invariant 'no context below the watermark' is preserved by both; Shutdown cancels the parent irreversibly. Interleaving with the worker inside an SPI call is not decided.",
    note="Trusted: govc, z3/cvc5. Assumed: context.WithCancel returns a fresh child (A-STD); cancel functions only record cancellation (ghost set). Not decided: wall-clock 'as soon as', scheduling of the two goroutines."),
+ 'C02': dict(level='proof', design='4.2',
+   text="WorkerLoop.ValidateBlockConsensus is proved sound for every proof byte string, block, committee and both modes: nil is returned only if the proof's block reference is a COMMIT for this instance and the block's height whose hash the block satisfies, every node of the proof (all of them are read) carries a signature that verifies over the block reference, belongs to the committee the Membership SPI returns for that height, ids are pairwise distinct, their weight reaches the quorum (strict) or exceeds f (soft) as computed by the verified quorum functions, and the random-seed signature is non-empty and verifies against the seed derived from the previous proof. No index/slice/nil-map panic is possible; GetMemberIdsFromBlockProof returns exactly the node ids or an error for empty input.",
+   note="Trusted: govc, z3/cvc5. Assumed (consumer SPI): KeyManager verdicts are functions of (height, bytes, sender id, signature); ValidateBlockCommitment is a pure predicate; committee total weight fits 64 bits. Assumed (membuffers, A-MB-TOTAL/A-ITER): readers never panic, accessors are pure, iterators enumerate a fixed finite sequence; SenderSignatureBuilder.Build round-trips its two fields. CalculateRandomSeed/RandomSeedToBytes are trusted (sha256 outside the subset; only determinism used). The completeness direction (valid proof => nil) is not claimed here."),
+ 'C17': dict(level='proof', design='4.17',
+   text="RawMessageFilter is verified as a data structure for all operation sequences: every delivery site proves height == current height, instance == mine, sender != me; the cache invariant (each cached message sits under its own height, has this instance id and a foreign sender) is preserved by every method; HandleConsensusRawMessage delivers / appends-at-the-end / drops exactly under the stated conditions and clears lower heights when a higher one arrives; ConsumeCacheMessages delivers the cached messages of the new height exactly once and in arrival order (ghost delivery log), stops as soon as a delivery moved the node to another height, and removes the consumed key. The re-entrant path (a delivery that commits and starts the next height) is part of the handler's assumed contract.",
+   note="Trusted: govc, z3/cvc5. Assumed: the term re-enters the filter only by advancing the height (handler contract, to be discharged on WorkerLoop); message accessors are pure (A-MB-TOTAL); State.height is only written by the worker goroutine (structural). Proviso of the statement read permissively (eviction by a later higher-height message is allowed), see DESIGN 4.17."),
 }
 
 na_fixed = {
